@@ -28,6 +28,8 @@ def parseRec : List String → Option Rec
       pure { base with tag := ← nat? a, alg := ← nat? b, algSupp := c == "1" }
     else if ty == tDS then
       pure { base with tag := ← nat? a, alg := ← nat? b, algSupp := c == "1", digSupp := d == "1" }
+    else if ty == tNSEC || ty == tNSEC3 then
+      pure { base with tag := ← nat? a }
     else pure base
   | _ => none
 
@@ -111,6 +113,9 @@ def splitBar (ts : List String) : List (List String) :=
 def handle (toks : List String) : Option String := do
   match splitBar toks with
   | ("runx" :: _) :: _ => pure "~"  -- no model side: the implementation run without cache was abandoned
+  | ["covers" :: _, [zk, hash, digest]] =>
+    let h : Option Bytes := if hash == "x" then none else parseHex hash
+    pure (showBool (dsCovers (zk == "1") h ((parseHex digest).getD [])))
   | ("hist" :: _) :: _ => pure "~"  -- histories on one handle: no model side (the model has no ValidationCache)
   | [["run", _hid, qname, qtype, _e, d, c, _faults], "U" :: n :: us, "T" :: _ :: ts] =>
     let depth ← (d.drop 1).toNat?
